@@ -245,15 +245,37 @@ async function op_query_table(req) {
     let warnings = [];
     let out_cols = [];
     let error = null;
+    let out_ids = null;
     try {
-        await rbql.query_table(req.query, input, out, warnings, join, req.input_cols || null, req.join_cols || null, out_cols, req.normalize === undefined ? true : req.normalize, req.init_code || '');
+        if (req.mutating_sink) {
+            // a sink that, like the CSV writer, rewrites the array it is handed after keeping its own copy (records reach `out` as copies)
+            class MutatingWriter extends rbql.RBQLOutputWriter {
+                constructor() { super(); this.header = null; this.handed = []; }
+                async write(fields) {
+                    this.handed.push(fields);
+                    out.push(Array.isArray(fields) ? fields.slice() : fields);
+                    if (Array.isArray(fields)) { for (let i = 0; i < fields.length; i++) fields[i] = '#sink:' + i + '#'; fields.push('#sink#'); }
+                    return true;
+                }
+                set_header(header) { this.header = header; }
+            }
+            let normalize = req.normalize === undefined ? true : req.normalize;
+            let w = new MutatingWriter();
+            let it = new rbql.TableIterator(input, req.input_cols || null, normalize);
+            let reg = join === null ? null : new rbql.SingleTableRegistry(join, req.join_cols || null, normalize);
+            await rbql.query(req.query, it, w, warnings, reg, req.init_code || '');
+            if (w.header !== null) for (let c of w.header) out_cols.push(c);
+            out_ids = w.handed;
+        } else {
+            await rbql.query_table(req.query, input, out, warnings, join, req.input_cols || null, req.join_cols || null, out_cols, req.normalize === undefined ? true : req.normalize, req.init_code || '');
+        }
     } catch (e) {
         error = err_info(e);
     }
     let src_rows = new Set(in_rows);
     if (join_rows) for (let r of join_rows) src_rows.add(r);
     let aliased = 0;
-    for (let r of out) if (src_rows.has(r)) aliased += 1;
+    for (let r of (out_ids || out)) if (src_rows.has(r)) aliased += 1;
     let identity_ok = input.length == in_rows.length && input.every((r, i) => r === in_rows[i]);
     if (join) identity_ok = identity_ok && join.length == join_rows.length && join.every((r, i) => r === join_rows[i]);
     let out_json = out.map((r) => Array.isArray(r) ? r.map(jsonable) : jsonable(r));
